@@ -772,6 +772,19 @@ pub fn publish_ap(v: V, qos: u8, dup: bool, retain: bool, topic: u8, alias: Alia
     AP::Publish { v, dup, qos, retain, topic, pid: if qos > 0 { pid } else { None }, props, payload }
 }
 
+/// `publish_ap` plus, for plen >= 6 under v5.0, a User Property sized so that the other properties take 121..130 bytes:
+/// adding or removing the 3-byte Topic Alias property then moves the Property Length across the 127/128 boundary
+pub fn publish_ap_plen(v: V, qos: u8, dup: bool, retain: bool, topic: u8, alias: AliasMode, pid: Option<u32>, tag: u32, plen: u8) -> AP {
+    let mut ap = publish_ap(v, qos, dup, retain, topic, alias, pid, payload_of(tag, plen));
+    if v == V::V5 && plen >= 6 {
+        if let AP::Publish { props, .. } = &mut ap {
+            let n = 114 + (plen as usize / 6).min(10);
+            props.insert(0, Prop { id: pid::USER_PROPERTY, val: PVal::Pair("k".into(), "u".repeat(n)) });
+        }
+    }
+    ap
+}
+
 pub fn ack_ap(v: V, kind: AckKind, pid: u32, rc: u8) -> AP {
     let rcs = crate::gen::ack_rcs(kind);
     match v {
@@ -807,6 +820,26 @@ pub fn disconnect_ap(v: V, rc: u8) -> AP {
         V::V5 if rc < 16 => AP::Disconnect { v, rc: Some(crate::gen::DISCONNECT_RC[rc as usize % crate::gen::DISCONNECT_RC.len()]), props: None },
         V::V5 => AP::Disconnect { v, rc: Some(0), props: Some(vec![Prop { id: pid::REASON_STRING, val: PVal::Str("d".repeat(90 + 3 * (rc as usize - 16))) }]) },
     }
+}
+
+/// Every packet requested for sending is a well-formed encoding of its own field values: size() equals the number of bytes
+/// and the bytes are exactly what the independent reference encoder writes for the values read back through the public
+/// accessors (catches lengths that went stale in a rewrite / store / resend path).
+pub fn check_wire(prop: &str, st: &Step, idw: usize) -> Result<(), crate::engine::Fail> {
+    for e in &st.events {
+        if let NEvent::Send { ap, size, bytes, .. } = e {
+            let reference = refcodec::encode(ap, idw);
+            if *size != bytes.len() || *bytes != reference {
+                let d = bytes.iter().zip(reference.iter()).position(|(x, y)| x != y).unwrap_or(bytes.len().min(reference.len()));
+                return Err(crate::engine::Fail::new(
+                    &format!("{prop}.sent_bytes_ne_reference"),
+                    format!("{}/{}", ap.version().name(), ap.kind_name()),
+                    format!("{} requested for sending: size() {} / {} bytes on the wire, reference encoding of the same field values {} bytes, first difference at offset {d}: wire {} reference {}", ap.brief(), size, bytes.len(), reference.len(), crate::util::hex_trunc(bytes, 48), crate::util::hex_trunc(&reference, 48)),
+                ));
+            }
+        }
+    }
+    Ok(())
 }
 
 /// packet ids of an abstract packet reduced to what `idw` bytes can carry
@@ -946,9 +979,8 @@ impl World {
                         Act::Skip("no id")
                     } else {
                         self.app.tag += 1;
-                        let pl = payload_of(self.app.tag, *plen);
                         let alias = resolve_alias(*alias, &self.app.alias_out);
-                        Act::Send(publish_ap(v, *qos, false, *retain, *topic, alias, pid, pl))
+                        Act::Send(publish_ap_plen(v, *qos, false, *retain, *topic, alias, pid, self.app.tag, *plen))
                     }
                 }
                 Op::Subscribe { id, n } => match self.resolve_id(*id, &mut pre) {
